@@ -497,6 +497,7 @@ def run_library(repo, libfuncs, tier='quick', rule='E6c', only=None):
     problems, counts, history = [], {}, {}
     lib = repo.module('library')
     it = JsonInterp(repo, lib, rule)
+    it.concrete_asserts = True
     it.oracles.pop('value_compare', None)          # the value comparison is the repository's own here (concrete values)
     for name in sorted(REFERENCE):
         if only and name not in only:
